@@ -1,29 +1,41 @@
-// Hook H5: cooperative scheduler behind `verif_yield!`.
-// Threads that did not register are never held (yield is a no-op for them).
+// Hook H5: cooperative (baton) scheduler behind `verif_yield!`.
+// Real threads, exactly one runnable at a time. A thread that has not registered
+// with a scheduler is never held: yield is a no-op for it (the background threads of
+// the process-wide DomainParticipant run freely).
 use std::{
-  cell::Cell,
+  cell::{Cell, RefCell},
+  collections::BTreeMap,
   sync::{Arc, Condvar, Mutex},
 };
 
 pub struct SchedState {
-  // id of the thread that holds the baton, or usize::MAX when nobody
-  pub current: usize,
-  // per registered thread: Some(site) if waiting at a yield site, None if not
-  pub waiting: Vec<Option<&'static str>>,
-  pub finished: Vec<bool>,
-  pub blocked: Vec<bool>,
-  pub trace: Vec<(usize, &'static str)>,
-  pub site_hits: std::collections::BTreeMap<&'static str, u64>,
+  /// id of the thread that holds the baton, usize::MAX when the controller has it
+  current: usize,
+  /// per registered thread: Some(site) while parked at a yield site
+  waiting: Vec<Option<&'static str>>,
+  finished: Vec<bool>,
+  /// parked in a *modelled* blocking wait (it will only re-check its wake-up source)
+  blocked: Vec<bool>,
+  /// steps taken by other threads since this thread blocked
+  progress_since_block: Vec<u64>,
+  pub trace: Vec<(u8, &'static str)>,
+  pub site_hits: BTreeMap<&'static str, u64>,
+  pub stop: bool,
+  /// resumed from a blocked park and not yet parked again
+  from_blocked: Vec<bool>,
+  /// the step in progress went from a blocked park straight back into a blocked park:
+  /// a fruitless re-check of the wake-up source, which is no progress for anybody
+  fruitless: bool,
 }
 
 pub struct Sched {
-  pub st: Mutex<SchedState>,
-  pub cv: Condvar,
+  st: Mutex<SchedState>,
+  cv: Condvar,
 }
 
 thread_local! {
   static ME: Cell<usize> = const { Cell::new(usize::MAX) };
-  static SCHED: std::cell::RefCell<Option<Arc<Sched>>> = const { std::cell::RefCell::new(None) };
+  static SCHED: RefCell<Option<Arc<Sched>>> = const { RefCell::new(None) };
 }
 
 impl Sched {
@@ -34,36 +46,50 @@ impl Sched {
         waiting: vec![None; nthreads],
         finished: vec![false; nthreads],
         blocked: vec![false; nthreads],
+        progress_since_block: vec![0; nthreads],
         trace: Vec::new(),
-        site_hits: Default::default(),
+        site_hits: BTreeMap::new(),
+        stop: false,
+        from_blocked: vec![false; nthreads],
+        fruitless: false,
       }),
       cv: Condvar::new(),
     })
   }
 
-  /// Called by a worker thread first thing: registers and waits for the baton.
+  /// Worker: register and wait for the first turn.
   pub fn enter(self: &Arc<Self>, id: usize) {
     ME.with(|m| m.set(id));
     SCHED.with(|s| *s.borrow_mut() = Some(self.clone()));
-    self.park_at(id, "start");
+    self.park(id, "start", false);
   }
 
-  /// Called by a worker thread when done.
+  /// Worker: done.
   pub fn leave(self: &Arc<Self>) {
     let id = ME.with(|m| m.get());
-    let mut st = self.st.lock().unwrap();
-    st.finished[id] = true;
-    st.waiting[id] = None;
-    st.current = usize::MAX;
-    self.cv.notify_all();
-    drop(st);
+    {
+      let mut st = self.st.lock().unwrap();
+      st.finished[id] = true;
+      st.waiting[id] = None;
+      st.blocked[id] = false;
+      st.current = usize::MAX;
+      self.cv.notify_all();
+    }
     ME.with(|m| m.set(usize::MAX));
     SCHED.with(|s| *s.borrow_mut() = None);
   }
 
-  fn park_at(&self, id: usize, site: &'static str) {
+  fn park(&self, id: usize, site: &'static str, blocked: bool) {
     let mut st = self.st.lock().unwrap();
     st.waiting[id] = Some(site);
+    st.blocked[id] = blocked;
+    if blocked {
+      st.progress_since_block[id] = 0;
+      if st.from_blocked[id] {
+        st.fruitless = true;
+      }
+    }
+    st.from_blocked[id] = false;
     *st.site_hits.entry(site).or_insert(0) += 1;
     if st.current == id {
       st.current = usize::MAX;
@@ -73,40 +99,133 @@ impl Sched {
       st = self.cv.wait(st).unwrap();
     }
     st.waiting[id] = None;
-    st.trace.push((id, site));
+    st.from_blocked[id] = st.blocked[id];
+    st.blocked[id] = false;
+    if st.trace.len() < 4000 {
+      st.trace.push((id as u8, site));
+    }
   }
 
-  /// Controller: wait until nobody holds the baton (all threads parked/finished).
-  pub fn wait_idle(&self) {
+  pub fn stop_requested(&self) -> bool {
+    self.st.lock().unwrap().stop
+  }
+
+  // ---- controller side
+  fn wait_controller_turn(&self) {
     let mut st = self.st.lock().unwrap();
     while st.current != usize::MAX {
       st = self.cv.wait(st).unwrap();
     }
   }
-
-  /// Controller: threads currently parked at a yield site (runnable).
-  pub fn runnable(&self) -> Vec<(usize, &'static str)> {
-    let st = self.st.lock().unwrap();
-    st.waiting
-      .iter()
-      .enumerate()
-      .filter_map(|(i, w)| w.map(|s| (i, s)))
-      .collect()
+  fn wait_all_parked(&self) {
+    let mut st = self.st.lock().unwrap();
+    while !(0..st.waiting.len()).all(|i| st.waiting[i].is_some() || st.finished[i]) {
+      st = self.cv.wait(st).unwrap();
+    }
   }
-
-  /// Controller: give the baton to `id` and wait until it parks again or finishes.
-  pub fn step(&self, id: usize) {
+  fn step(&self, id: usize) {
     {
       let mut st = self.st.lock().unwrap();
-      assert!(st.waiting[id].is_some(), "step: thread {id} not parked");
+      st.fruitless = false;
       st.current = id;
       self.cv.notify_all();
     }
-    self.wait_idle();
+    self.wait_controller_turn();
+    let mut st = self.st.lock().unwrap();
+    if !st.fruitless {
+      for j in 0..st.progress_since_block.len() {
+        if j != id {
+          st.progress_since_block[j] += 1;
+        }
+      }
+    }
   }
 
-  pub fn all_finished(&self) -> bool {
-    self.st.lock().unwrap().finished.iter().all(|f| *f)
+  /// Drive the registered threads to completion with a seeded random schedule.
+  /// A blocked thread is only scheduled after another thread made progress (it will
+  /// just re-check its wake-up source). When only blocked threads remain and none has
+  /// unseen progress, `stop` is raised and each is given one last turn to wind up.
+  /// Returns (steps, choice-hash).
+  pub fn drive(self: &Arc<Self>, seed: u64, max_steps: usize) -> (usize, u64, bool) {
+    self.drive_mode(seed, max_steps, 0, 0)
+  }
+
+  /// `pct_depth` > 0: PCT-style priority schedule (Burckhardt et al.): every thread gets
+  /// a random priority, the highest-priority runnable thread always runs, and at
+  /// `pct_depth` random change points (step numbers below `pct_horizon`) the running
+  /// thread's priority drops below all others. Finds ordering bugs of small depth with
+  /// far higher probability than uniform random choice when one thread must run for
+  /// many consecutive steps.
+  pub fn drive_mode(self: &Arc<Self>, seed: u64, max_steps: usize, pct_depth: usize, pct_horizon: usize) -> (usize, u64, bool) {
+    let mut rng = seed | 1;
+    let mut next = move || {
+      rng ^= rng << 13;
+      rng ^= rng >> 7;
+      rng ^= rng << 17;
+      rng
+    };
+    self.wait_all_parked();
+    let nthreads = self.st.lock().unwrap().waiting.len();
+    let mut prio: Vec<i64> = (0..nthreads).map(|_| 1000 + (next() % 1000) as i64).collect();
+    let mut change_points: Vec<usize> = (0..pct_depth).map(|_| (next() % pct_horizon.max(1) as u64) as usize).collect();
+    change_points.sort();
+    let mut low = 0i64;
+    let mut steps = 0usize;
+    let mut h: u64 = 0xcbf29ce484222325;
+    let mut exhausted = false;
+    loop {
+      let (cands, all_done, stopping) = {
+        let st = self.st.lock().unwrap();
+        let all_done = st.finished.iter().all(|f| *f);
+        let cands: Vec<usize> = (0..st.waiting.len())
+          .filter(|i| st.waiting[*i].is_some() && !st.finished[*i])
+          .filter(|i| st.stop || !st.blocked[*i] || st.progress_since_block[*i] > 0)
+          .collect();
+        (cands, all_done, st.stop)
+      };
+      if all_done {
+        break;
+      }
+      if steps >= max_steps {
+        exhausted = true;
+        // let everybody wind up
+        self.st.lock().unwrap().stop = true;
+      }
+      if cands.is_empty() {
+        if stopping {
+          // nothing left that can run although stop was raised: give up (deadlock in the code under test)
+          exhausted = true;
+          break;
+        }
+        self.st.lock().unwrap().stop = true;
+        continue;
+      }
+      let pick = if pct_depth == 0 {
+        cands[(next() % cands.len() as u64) as usize]
+      } else {
+        let p = *cands.iter().max_by_key(|c| prio[**c]).unwrap();
+        if change_points.first() == Some(&steps) {
+          change_points.remove(0);
+          low -= 1;
+          prio[p] = low;
+        }
+        p
+      };
+      h ^= pick as u64 + 1;
+      h = h.wrapping_mul(0x100000001b3);
+      self.step(pick);
+      steps += 1;
+      if steps > max_steps + 10_000 {
+        exhausted = true;
+        break;
+      }
+    }
+    (steps, h, exhausted)
+  }
+
+  pub fn take_trace(&self) -> (Vec<(u8, &'static str)>, BTreeMap<&'static str, u64>) {
+    let mut st = self.st.lock().unwrap();
+    (std::mem::take(&mut st.trace), st.site_hits.clone())
   }
 }
 
@@ -118,11 +237,20 @@ pub fn yield_at(site: &'static str) {
   }
   let s = SCHED.with(|s| s.borrow().clone());
   if let Some(s) = s {
-    s.park_at(id, site);
+    s.park(id, site, false);
   }
 }
 
-/// For worker code in the harness: an explicit scheduling point.
-pub fn harness_yield(site: &'static str) {
-  yield_at(site);
+/// Modelled blocking wait of a registered worker: parks as "blocked". Returns true if
+/// the scheduler asked everybody to wind up.
+pub fn block_here(site: &'static str) -> bool {
+  let id = ME.with(|m| m.get());
+  let s = SCHED.with(|s| s.borrow().clone());
+  match (id, s) {
+    (usize::MAX, _) | (_, None) => true,
+    (id, Some(s)) => {
+      s.park(id, site, true);
+      s.stop_requested()
+    }
+  }
 }
